@@ -45,7 +45,8 @@ Kids(n) == SubSeq(stack, Len(stack) - n + 1, Len(stack))
 
 WrapSeq(k, n) ==
   /\ k \in Kinds \cap {"tuple", "list"}
-  /\ WrapWith(n, Mk(k, used + 1, Kids(n), <<>>, 0, 0, <<>>, FALSE))
+  \* the empty tuple is a CPython singleton: it has no identity of its own (id -1)
+  /\ WrapWith(n, Mk(k, IF k = "tuple" /\ n = 0 THEN 0 - 1 ELSE used + 1, Kids(n), <<>>, 0, 0, <<>>, FALSE))
 WrapDeque(n) ==
   /\ "deque" \in Kinds
   /\ \E m \in MaxLens : (m = 0 \/ m - 1 >= n) /\ WrapWith(n, Mk("deque", used + 1, Kids(n), <<>>, m, 0, <<>>, FALSE))
